@@ -259,6 +259,15 @@ func (r *dspRun) rec(tag, kind, k, i, a int) {
 	r.log = append(r.log, dspEvent{tag, kind, k, i, a})
 	r.mu.Unlock()
 	atomic.AddInt64(&r.seq, 1)
+	r.noteDone(tag, kind)
+}
+
+// a foreground DISCONNECTED invocation is finished once its exit or its recovery is on record
+// (NOT when its body unwinds: the recovery function runs after the body's own deferred calls)
+func (r *dspRun) noteDone(tag, kind int) {
+	if kind == dspKDiscFg && (tag == 1 || tag == 3) {
+		atomic.AddInt64(&r.discN, 1)
+	}
 }
 
 func dspAtoi(s string) int {
@@ -416,9 +425,6 @@ func (r *dspRun) handler(kind, i int) client.HandlerFunc {
 			defer atomic.AddInt64(&r.bgLive, -1)
 		}
 		r.rec(0, kind, k, i, r.sample())
-		if kind == dspKDiscFg {
-			defer atomic.AddInt64(&r.discN, 1)
-		}
 		if isBg && int(dspHash(r.c.seed, 4000+kind, k, i)%100) < r.c.parkPct {
 			atomic.AddInt64(&r.bgLive, -1)
 			<-r.park // a background handler that never returns (released at teardown)
@@ -478,6 +484,7 @@ func (r *dspRun) recoverHook(conn *client.Conn, line *client.Line) {
 		r.log = append(r.log, dspEvent{3, id[0], id[1], id[2], 0})
 		r.mu.Unlock()
 		atomic.AddInt64(&r.seq, 1)
+		r.noteDone(3, id[0])
 	}
 }
 
@@ -517,6 +524,7 @@ func (dspLogger) Error(f string, a ...interface{}) {
 	r.log = append(r.log, dspEvent{3, id[0], id[1], id[2], 0})
 	r.mu.Unlock()
 	atomic.AddInt64(&r.seq, 1)
+	r.noteDone(3, id[0])
 }
 
 func dspSetup() { logging.SetLogger(dspLogger{}) }
@@ -619,6 +627,7 @@ func dspExec(in Fields) Fields {
 	}
 	wr := &Rand{s: c.seed*7 + 1}
 	closed := make(chan struct{})
+	closeCalled := make(chan struct{})
 	writerDone := make(chan struct{})
 	go func() {
 		defer close(writerDone)
@@ -629,6 +638,7 @@ func dspExec(in Fields) Fields {
 				fired = true
 				go func() { // a user goroutine calling Close() at some moment
 					time.Sleep(time.Duration(wr.Intn(300)) * time.Microsecond)
+					close(closeCalled)
 					conn.Close()
 					close(closed)
 				}()
@@ -654,6 +664,7 @@ func dspExec(in Fields) Fields {
 			p += n
 		}
 		if c.endmode == 2 && !fired {
+			close(closeCalled)
 			conn.Close()
 			close(closed)
 		}
@@ -663,21 +674,28 @@ func dspExec(in Fields) Fields {
 	}()
 
 	status := "ok"
-	wait := func(ch <-chan struct{}, what string) {
+	wait := func(ch <-chan struct{}, what string, d time.Duration) {
+		if status != "ok" {
+			return
+		}
 		select {
 		case <-ch:
-		case <-time.After(8 * time.Second): // generous: a session takes well under a second
+		case <-time.After(d):
 			status = "hung-" + what
 		}
 	}
+	// the script itself may take a while (slow handlers, a loaded machine); the disconnect
+	// (from the EOF resp. the call of Close() to the end of DISCONNECTED) gets 10 s
+	const whole, teardown = 90 * time.Second, 10 * time.Second
 	switch c.endmode {
 	case 0:
-		wait(r.endSeen, "end")
+		wait(r.endSeen, "end", whole)
 	case 1:
-		wait(writerDone, "writer")
-		wait(discSeen, "disc")
+		wait(writerDone, "writer", whole)
+		wait(discSeen, "disc", teardown)
 	default:
-		wait(closed, "close")
+		wait(closeCalled, "closecall", whole)
+		wait(closed, "close", teardown)
 	}
 	if c.endmode != 0 {
 		// every foreground DISCONNECTED handler finished (closeIf returns after the dispatch)
